@@ -487,6 +487,7 @@ class Respondent(httping.Parsent):
                 (100 <= self.status < 200) or      # 1xx codes
                 (self.method == "HEAD")):
             self.length = 0
+            self.chunked = False  # no body so no chunks whatever transfer-encoding says
 
         contentType = self.headers.get("content-type")
         if contentType:
